@@ -1,5 +1,7 @@
 (* C10 - UDP services cannot be used as traffic amplifiers: property theorems. *)
-From HT Require Import Common.Bytes C10.Model C10.Check C10.Proofs.
+(* (C10.Check is deliberately not imported: it uses primitive integers to unpack case
+   payloads, and the theorems must not have them in their library closure) *)
+From HT Require Import Common.Bytes C10.Model C10.Proofs.
 Open Scope Z_scope.
 
 (* ---- the token bucket (rate.Limiter with the constants of services.NewLimiter) ---- *)
